@@ -70,12 +70,17 @@ pub trait Float: Sized {
   fn epsilon() -> (r: Self) ensures r.fv() == EPS();
   fn abs(self) -> (r: Self) ensures r.fv() == abs_r(self.fv());
   fn sqrt(self) -> (r: Self) ensures r.fv() == sqrt_r(self.fv());
+  /// num_traits::Float::max / min (on non-NaN arguments: the larger / smaller one)
+  fn max(self, other: Self) -> (r: Self) ensures r.fv() == (if self.fv() >= other.fv() { self.fv() } else { other.fv() });
+  fn min(self, other: Self) -> (r: Self) ensures r.fv() == (if self.fv() <= other.fv() { self.fv() } else { other.fv() });
 }
 impl Float for Sc {
   open spec fn fv(&self) -> real { self@ }
   #[verifier::external_body] fn epsilon() -> (r: Self) { unimplemented!() }
   #[verifier::external_body] fn abs(self) -> (r: Self) { unimplemented!() }
   #[verifier::external_body] fn sqrt(self) -> (r: Self) { unimplemented!() }
+  #[verifier::external_body] fn max(self, other: Self) -> (r: Self) { unimplemented!() }
+  #[verifier::external_body] fn min(self, other: Self) -> (r: Self) { unimplemented!() }
 }
 impl Sc {
   /// num_traits::FromPrimitive::from_usize: Some(exact value) or None (never a wrong value)
@@ -267,6 +272,14 @@ impl DMatrix {
   pub fn as_view(&self) -> (v: MView) requires self.ok() ensures v@ == self@ { unimplemented!() }
   #[verifier::external_body]
   pub fn column(&self, j: usize) -> (v: MView) requires self.ok(), j < self@.c ensures v@ == col(self@, j as int) { unimplemented!() }
+
+  /// nalgebra base/matrix_view.rs `columns(first, n)` / `rows(first, n)`: a view of that block (asserts it lies inside)
+  #[verifier::external_body]
+  pub fn columns(&self, first: usize, n: usize) -> (v: MView) requires self.ok(), first + n <= self@.c
+    ensures v@ == mat_new(self@.r, n as nat, |i: int, j: int| self@.get(i, first + j)) { unimplemented!() }
+  #[verifier::external_body]
+  pub fn rows(&self, first: usize, n: usize) -> (v: MView) requires self.ok(), first + n <= self@.r
+    ensures v@ == mat_new(n as nat, self@.c, |i: int, j: int| self@.get(first + i, j)) { unimplemented!() }
 
   // ---- rule X4 borrow encoding
   #[verifier::external_body]
@@ -507,7 +520,18 @@ pub struct SVD {
   pub v_t: Option<DMatrix>,
   pub singular_values: DMatrix,
 }
+/// number of entries of `sv` that are greater than `eps`
+pub open spec fn rank_spec(sv: Seq<real>, eps: real) -> nat decreases sv.len() {
+  if sv.len() == 0 { 0 } else { rank_spec(sv.drop_last(), eps) + (if sv.last() > eps { 1nat } else { 0nat }) }
+}
+pub proof fn lemma_rank_le(sv: Seq<real>, eps: real) ensures rank_spec(sv, eps) <= sv.len() decreases sv.len() {
+  if sv.len() > 0 { lemma_rank_le(sv.drop_last(), eps); }
+}
 impl SVD {
+  /// svd.rs `rank(eps)`: asserts eps >= 0; counts the singular values greater than eps
+  #[verifier::external_body]
+  pub fn rank(&self, eps: Sc) -> (r: usize) requires eps@ >= 0real
+    ensures self.singular_values@.c == 1 ==> r == rank_spec(self.singular_values@.e[0], eps@), r <= self.singular_values@.r { unimplemented!() }
   /// this value is the decomposition nalgebra computes for `a`
   pub open spec fn is_of(&self, a: MatR) -> bool {
     &&& self.u matches Some(u) && u@ == svd_u(a) && u.ok()
